@@ -113,3 +113,13 @@ PROPS["C28"] = dict(
          "lives across an await. Sound over the analysed bodies for deadlocks that consist of lock waits only.",
     note="Liveness under starvation and deadlocks through channels/JoinHandles are not decided. Trusted: rustc coroutine MIR, "
          "emmyfacts, lock identity = guarded type (table of lock fields printed in evidence).")
+
+PROPS["C11"] = dict(
+    module="c11", func="run", level="other", crates=None,
+    technique="interprocedural hash-order taint analysis (backward, use-site aware, sort sanitizers) over MIR",
+    text="Decides the clause 'no hash-seed dependent order reaches the sequences that drive the analysis': every file "
+         "list handed to update_index/remove_index/analyze, the context order of module_analyze, get_best_analysis_order "
+         "and the Vfs/module-index file enumerations are shown free of hash-iteration order, at every call site in the "
+         "workspace. Unlike clippy's iter_over_hash_type it sees hashbrown containers and follows the order to the sinks.",
+    note="Order dependence inside the index and thread timing are not decided. Trusted: rustc MIR, emmyfacts, the source/"
+         "sanitizer tables in lib/hashorder.py, one audited exception (module_analyze main_vec) with its value-level reason.")
